@@ -27,17 +27,19 @@ TOL = 1e-6  # tolerance class "spec"
 SCS = 1e-3  # tolerance class "scs"
 MARGIN = 0.02  # distance of every boolean margin case from its decision boundary (>= 100 x the predicates' 1e-5 / eps tolerances)
 
-RULE = ("pure case = (function, (d_A,d_B), partition of N=6 (quick) / 8 (thorough) into <= min(d) parts -> Schmidt vector "
-        "p/||p||, key of U_A, key of U_B (ALL catalogue unitaries of that dimension, generic complex ones included), input "
-        "form 1-D / column / density, dim form list / int / ndarray / omitted (square totals only), k); the state is "
-        "sum_i s_i U_A e_i (x) U_B e_i; every combination is executed. mixed case = (function, dims, key of a mixed state "
-        "(catalogue densities of the total dimension, generic densities, products of local densities, mixtures of "
-        "constructed pure states, pure + white noise), dim form[, local unitary pair]). A pure case is non-trivial iff the "
-        "local bases are not both monomial (the state is not a relabelled computational Schmidt form) and (Schmidt rank "
-        ">= 2 or the function is a rank / product test); a mixed case is non-trivial iff the state is not a product "
-        "operator or the function does not vanish on it; an invariance case iff the local unitary pair is not "
-        "(monomial, monomial); S(k)-norm cases iff k < min(d) and rank(X) > 1 (no shortcut). states = distinct cases, "
-        "transitions = toqito calls")
+RULE = ("pure case = (function, (d_A,d_B), partition of N into <= min(d) parts -> Schmidt vector p/||p|| (N = 6 quick; 6 and 8 "
+        "thorough), key of U_A, key of U_B (ALL catalogue unitaries of that dimension, generic complex ones included), input "
+        "form 1-D / column / density); the state is sum_i s_i U_A e_i (x) U_B e_i; inside one case EVERY dim form (list / "
+        "ndarray / omitted for square totals / int) and every k = 1..min(d) (k_param = 0..min(d)) is executed, and the case "
+        "fails on the first deviation. mixed case = (function, dims, key of a mixed state: catalogue densities of the total "
+        "dimension, generic densities of ranks n, n-1, 3, products of local densities, mixtures of constructed pure states, "
+        "pure + white noise; dim form[, k_param]). invariance case = (function, dims, local unitary pair, N) and runs every "
+        "state of the sub-alphabet. A pure case is non-trivial iff the local bases are not both monomial (the state is not a "
+        "relabelled computational Schmidt form) and (Schmidt rank >= 2 or the function is a rank / product / decomposition "
+        "test); a mixed case iff the function does not take a trivial value on it (product operator for entanglement "
+        "measures, pure state for purity / entropy); an invariance case iff the unitary pair is not (monomial, monomial); an "
+        "additivity case iff both factors are mixed; S(k)-norm / block-positivity cases iff k < min(d) and rank(X) > 1 (no "
+        "shortcut branch). states = distinct cases, transitions = toqito calls")
 ASSUMPTIONS = [
     "numpy.linalg.svd / eigvalsh / eigh of explicitly built matrices of size <= 16 are correct to 1e-12",
     "value domain is the finite alphabet above (structured + VERIF_SEED-derived generic elements); local dimensions 2..3 "
@@ -309,11 +311,12 @@ def _check_vector_decomposition(v, s, d_a, d_b, k, got):
     except Exception:  # noqa: BLE001
         return ("did not return a triple (coefficients, factors of A, factors of B)", "shape", repr(got)[:120], None)
     srt = sorted(s, reverse=True)
-    exp = np.array(srt if k == 0 else (srt + [0.0] * k)[:k])
-    r = len(exp)
-    if sv.shape != (r, 1):
-        return (f"returned {sv.shape[0] if sv.ndim else 0} Schmidt coefficients of shape {sv.shape}, expected ({r}, 1)", "count",
-                list(sv.shape), [r, 1])
+    # k_param = k > 0: exactly k terms are documented; k_param = 0: all non-zero terms (extra zero terms are tolerated)
+    r = k if k > 0 else (sv.shape[0] if sv.ndim == 2 else -1)
+    if sv.ndim != 2 or sv.shape != (r, 1) or not (k > 0 or len(srt) <= r <= min(d_a, d_b)):
+        return (f"returned Schmidt coefficients of shape {sv.shape}; expected ({k if k > 0 else len(srt)}, 1)", "count",
+                list(sv.shape), [k if k > 0 else len(srt), 1])
+    exp = np.array((srt + [0.0] * r)[:r])
     if np.max(np.abs(sv[:, 0] - exp)) > ALG:
         return ("Schmidt coefficients differ from the constructed ones", "coefficients", sv[:, 0].tolist(), exp.tolist())
     if a_mat.shape != (d_a, r) or b_mat.shape != (d_b, r):
@@ -345,10 +348,11 @@ def _check_operator_decomposition(rho, coeffs, d_a, d_b, k, got, tol=ALG):
     except Exception:  # noqa: BLE001
         return ("did not return a triple (coefficients, operators of A, operators of B)", "shape", repr(got)[:120], None)
     srt = sorted((float(c) for c in coeffs), reverse=True)
-    exp = np.array(srt if k == 0 else (srt + [0.0] * k)[:k])
-    r = len(exp)
-    if sv.shape != (r, 1):
-        return (f"returned operator-Schmidt coefficients of shape {sv.shape}, expected ({r}, 1)", "count", list(sv.shape), [r, 1])
+    r = k if k > 0 else (sv.shape[0] if sv.ndim == 2 else -1)
+    if sv.ndim != 2 or sv.shape != (r, 1) or not (k > 0 or len(srt) <= r <= min(d_a * d_a, d_b * d_b)):
+        return (f"returned operator-Schmidt coefficients of shape {sv.shape}; expected ({k if k > 0 else len(srt)}, 1)", "count",
+                list(sv.shape), [k if k > 0 else len(srt), 1])
+    exp = np.array((srt + [0.0] * r)[:r])
     if np.max(np.abs(sv[:, 0] - exp)) > tol:
         return ("operator-Schmidt coefficients differ from the reference (singular values of the realigned operator)", "coefficients",
                 sv[:, 0].tolist(), exp.tolist())
@@ -561,8 +565,7 @@ def mixed_check(case):
         if exc is not None and is_deliberate_rejection(exc):
             return rejected("entanglement_of_formation is documented for pure states and two-qubit states only")
         if exc is None:
-            return viol(f"entanglement_of_formation returned {got!r} for a mixed state beyond two qubits (documented as unsupported)",
-                        site="entanglement_of_formation:accepts_unsupported", observed=repr(got))
+            return indet("no reference value for the entanglement of formation of a mixed state beyond two qubits")
     if exc is not None:
         return raised(fn, exc, "rho", df, "a bipartite density matrix")
     if fn in ("schmidt_rank", "schmidt_decomposition"):
@@ -923,7 +926,7 @@ def _sk_cases(tier):
         for key in keys:
             for k in range(1, min(d_a, d_b) + 1):
                 for eff in efforts:
-                    for sd in seeds:
+                    for sd in (seeds if (eff < 2 or tier == "thorough") else seeds[:1]):
                         yield {"dA": d_a, "dB": d_b, "x": key, "k": k, "effort": eff, "seed": sd, "dim": "list"}
                 for df in dimforms_for(d_a, d_b)[1:]:  # the other dim forms (omitted, int)
                     yield {"dA": d_a, "dB": d_b, "x": key, "k": k, "effort": 0, "seed": 0, "dim": df}
@@ -980,7 +983,6 @@ def adaptive_vectors(x, d_a, d_b, k):
 def sk_check(case):
     d_a, d_b, k, key, eff = case["dA"], case["dB"], case["k"], case["x"], case["effort"]
     x = sk_matrix(d_a, d_b, key)
-    n = d_a * d_b
     f = toq("sk_operator_norm")
     np.random.seed(case["seed"])
     got, exc = quiet(f, x.copy(), k, dim_arg(d_a, d_b, case["dim"]), None, eff)
@@ -1016,21 +1018,17 @@ def sk_check(case):
         return viol(f"a vector of Schmidt rank <= {k} attains |<v|X|v>| = {best:.9g} above the returned upper bound {up:.9g} "
                     f"(effort={eff}, {d_a}x{d_b}, X={key})", site="sk_operator_norm:upper", observed=up, expected=f">= {best:.9g}")
     # cases with a known S(k)-norm
-    exact, tight = None, False
+    exact = None
     if k >= min(d_a, d_b):
-        exact, tight = opn, True
+        exact = opn  # every vector has Schmidt rank <= min(d)
     elif key.startswith("pure:"):
         s = _pure_from_key(d_a, d_b, key.split(":", 1)[1])[1]
-        exact, tight = E.sk_vector_norm_cf(s, k) ** 2, True
+        exact = E.sk_vector_norm_cf(s, k) ** 2  # |psi><psi|: sum of the k largest s_i^2
     elif key.startswith("prod:") or key == "herm:swap":
         exact = opn  # attained by a product vector (product of top eigenvectors / a (x) a)
-    if exact is not None:
-        if lo > exact + eps or up < exact - eps:
-            return viol(f"bounds [{lo:.9g}, {up:.9g}] do not bracket the known S({k})-norm {exact:.9g} (X={key}, {d_a}x{d_b})",
-                        site="sk_operator_norm:bracket", observed=[lo, up], expected=exact)
-        if tight and (abs(lo - exact) > eps or abs(up - exact) > eps):
-            return viol(f"closed-form case: bounds [{lo:.9g}, {up:.9g}] differ from the S({k})-norm {exact:.9g} (X={key}, {d_a}x{d_b})",
-                        site="sk_operator_norm:exact", observed=[lo, up], expected=exact)
+    if exact is not None and (lo > exact + eps or up < exact - eps):
+        return viol(f"bounds [{lo:.9g}, {up:.9g}] do not bracket the known S({k})-norm {exact:.9g} (X={key}, {d_a}x{d_b})",
+                    site="sk_operator_norm:bracket", observed=[lo, up], expected=exact)
     return ok(k < min(d_a, d_b) and not rank1, obs=obs)
 
 
